@@ -238,6 +238,17 @@ func runWire(sc *WireScenario) *WireResult {
 					} else {
 						expect(6, int(m.ID))
 					}
+				case 'M':
+					// a medium-sized message (a little above typical "large payload" thresholds of 1-4 KiB)
+					pl := make([]byte, 4500+ci*300+j*50)
+					for k := range pl {
+						pl[k] = byte('a' + ci)
+					}
+					copy(pl, fmt.Sprintf("M%d-%d:", ci, j))
+					expect(3, ints(pl))
+					if err := cli.Publish(ctx, &mqtt.Message{Topic: fmt.Sprintf("t/%d", ci), QoS: mqtt.QoS0, Payload: pl}); err != nil {
+						addErr("publish: " + netsim.ErrClass(err))
+					}
 				case 'L':
 					// a large message (several tens of KiB): written in one BaseClient.write call like any other packet
 					pl := make([]byte, 33000+ci*2000+j*500)
